@@ -241,7 +241,8 @@ pub fn c08_scenario(seed: u64, idx: u64) -> Scenario {
         sc.env = cors_env(&mut rng);
     }
     let nonce = rng.next();
-    sc.tree = gen_tree(&mut rng, &TreeOpts { root: "root".into(), max_entries: 8, big_files: false, symlinks: false, request_size: 10000, nonce });
+    let with_links = rng.chance(1, 2);
+    sc.tree = gen_tree(&mut rng, &TreeOpts { root: "root".into(), max_entries: 8, big_files: false, symlinks: with_links, request_size: 10000, nonce });
     let mut paths: Vec<String> = tree_paths(&mut rng, &sc.tree).into_iter().map(|(p, _)| p).collect();
     // a few focus paths so that different requests meet on the same resource
     if rng.chance(2, 3) {
